@@ -88,6 +88,13 @@ def from_oid_queries(prefix, tier):
                   shape=f"every OID of {n} arcs (arcs symbolic u64): Ok(entry) iff it is one of the six registered signature OIDs") for n in ns]
 
 
+def key_id_queries(prefix):
+    names = {1: "Sha256", 2: "Sha384", 3: "Sha512"}
+    return [Query(name=f"{prefix}_key_id_{m}", body=f"    units::key_id_derive({m});", unwind=80, family="key_id_derive", config="ring", stubs=S2,
+                  field_sens=64, functions=["rcgen::KeyIdMethod::derive"],
+                  shape=f"KeyIdMethod::{names[m]} and PreSpecified on 5 symbolic SPKI bytes: first 20 bytes of digest(hash, exactly those bytes)") for m in (1, 2, 3)]
+
+
 def queries(tier, seed=0):
     # (otherName SANs and directoryName subtrees are not tractable for CBMC even as units - see DESIGN.md; engine M covers their structure)
-    return ku_queries("c02", 1, tier, seed) + cidr_queries("c02")
+    return ku_queries("c02", 1, tier, seed) + cidr_queries("c02") + key_id_queries("c02")
